@@ -107,6 +107,13 @@ class Predicate(Symbol, ABC):
         Evaluate the predicate for the supplied values.
         """
 
+    def __bool__(self) -> bool:
+        """
+        A predicate that was given plain values only is an ordinary object; where it stands as a condition (a query
+        takes it as a literal) it has the truth value of its call.
+        """
+        return bool(self())
+
 
 @dataclass(eq=False)
 class HasType(Predicate):
